@@ -29,7 +29,7 @@ pub fn block_case(name: &'static str, input: Shape, block: Vec<L>, loops: usize,
                 Layer::Feedback(f) => f,
                 _ => unreachable!(),
             };
-            ctx.fact("unrolled-layer-count", fb.layers.len() == period * loops, format!("{}", fb.layers.len()));
+            ctx.require(fb.layers.len() == period * loops, "the block stores one layer object per unrolled repetition");
             let mut outs: Vec<Tensor> = Vec::new();
             let mut cur = x.clone();
             for r in 0..loops {
